@@ -480,3 +480,30 @@ def concat_parts(e: ast.AST) -> List[Any]:
             add(("expr", norm(x)))
     rec(e)
     return out
+
+
+def expr_facts(module, node: ast.AST) -> List[Tuple[ast.AST, bool]]:
+    """Tests known to hold when `node` is evaluated because of where it sits INSIDE its statement: the body / orelse of a
+    conditional expression, a later operand of `and` / `or`, the element of a comprehension with `if` filters.
+    Complements cfg.branch_facts (which knows the statement-level branches)."""
+    out: List[Tuple[ast.AST, bool]] = []
+    cur = node
+    while not isinstance(cur, ast.stmt):
+        par = module.parent_of.get(cur)
+        if par is None:
+            break
+        if isinstance(par, ast.IfExp):
+            if cur is par.body:
+                out.append((par.test, True))
+            elif cur is par.orelse:
+                out.append((par.test, False))
+        elif isinstance(par, ast.BoolOp) and cur in par.values:
+            k = par.values.index(cur)
+            for earlier in par.values[:k]:
+                out.append((earlier, isinstance(par.op, ast.And)))
+        elif isinstance(par, (ast.ListComp, ast.SetComp, ast.GeneratorExp, ast.DictComp)) and cur in (getattr(par, "elt", None), getattr(par, "key", None), getattr(par, "value", None)):
+            for gen in par.generators:
+                for c in gen.ifs:
+                    out.append((c, True))
+        cur = par
+    return out
